@@ -1,7 +1,8 @@
 """C13 - Distances: what is added is what is returned, and it follows the objects.
 Model: spec/Distances.tla (relations), spec/MC_Distances.tla (bounded store, behaviour generation);
 binding: spec/TraceDistances.tla, harness/hwv_distances.c"""
-import os, random, json, re, itertools
+import os, random, json, re, itertools, time
+import concurrent.futures as cf
 import vlib
 
 XMLDIR = os.path.join(vlib.REPO, "tests", "hwloc", "xml")
@@ -160,19 +161,27 @@ def configs(fams, thorough, seed):
                       ("depth", "t:PU", 0, 0, -1), ("depth", "t:NUMANode", 4, 0, 1), ("depth", "99", 0, 0, 1), ("depth", "-99", 0, 0, 0),
                       ("kind", "", 0, 1, 1), ("name", "a", 0, 1, 1)},
              MaxPhase=1, PhaseQueries={("type", "PU", 0, 0, 1), ("depth", "t:NUMANode", 4, 0, 1), ("name", "a", 0, 1, 1)})
-    out.append(("objs", st, c, "bfs", 10 if thorough else 150, 0, 0))
+    out.append(("objs", st, c, "bfs", 8 if thorough else 150, 0, 0))
     # S: several structures: filters, array sizes, removals
     c = base_consts(st)
-    c.update(Names={"-", "a"}, Kinds={6, 9, 33}, ObjSeqs={(1, 2), (3, 4), (2, 1, 3)},
-             MaxDists=3 if thorough else 2, MaxRestricts=1,
+    c.update(Names={"-", "a", "b"} if thorough else {"-", "a"}, Kinds={6, 9, 33}, ObjSeqs={(1, 2), (3, 4), (2, 1, 3)},
+             MaxDists=2, MaxRestricts=1,
              Ops={"q", "remove", "rmtype", "rmdepth", "rr", "rr2", "restrict", "dup", "xml", "shm"}, RmTypes={"PU", "NUMANode", "Package"}, BadDepths={99, -1},
-             Queries=kind_queries(range(0, 48) if thorough else [0, 1, 2, 3, 4, 8, 12, 32, 36, 44, 5, 10, 35, 16, 22, 47], [-1, 1] if thorough else [-1, 0, 1, 2])
+             Queries=kind_queries(range(0, 48) if thorough else [0, 1, 2, 3, 4, 8, 12, 32, 36, 44, 5, 10, 35, 16, 22, 47], [-1, 0, 1, 2])
              | {("name", n, 0, 0, k) for n in ("a", "b", "c") for k in (-1, 0, 1)}
              | {("type", t, k, 0, n) for t in ("PU", "NUMANode", "Core") for k in (0, 4, 9) for n in (-1, 1)}
              | {("depth", d, 0, 0, 1) for d in ("t:PU", "t:Core", "7")},
              MaxPhase=1, PhaseQueries={("kind", "", 0, 0, -1), ("kind", "", 5, 0, 1), ("kind", "", 10, 0, -1), ("name", "a", 0, 0, -1), ("name", "b", 0, 0, 1),
                                        ("type", "PU", 0, 0, -1), ("type", "NUMANode", 9, 0, 1), ("depth", "t:PU", 0, 0, 1)})
-    out.append(("store", st, c, "bfs", 1500 if thorough else 600, 0, 0))
+    out.append(("store", st, c, "bfs", 250 if thorough else 600, 0, 0))
+    if thorough:
+        # S3: three structures at a time (removal in the middle of the list, identifiers), few queries
+        c = base_consts(st)
+        c.update(Names={"-", "a"}, Kinds={6, 9, 33}, ObjSeqs={(1, 2), (3, 4), (2, 1, 3)}, MaxDists=3, MaxRestricts=1,
+                 Ops={"q", "remove", "rmtype", "rmdepth", "rr", "rr2", "restrict", "dup", "xml", "shm"}, RmTypes={"PU", "NUMANode"}, BadDepths={99},
+                 Queries={("kind", "", 0, 0, -1), ("kind", "", 0, 0, 2), ("kind", "", 9, 0, 1), ("kind", "", 36, 0, -1), ("name", "a", 0, 0, -1), ("name", "a", 0, 0, 1),
+                          ("type", "PU", 0, 0, -1), ("type", "NUMANode", 0, 0, 1)})
+        out.append(("store3", st, c, "bfs", 200, 0, 0))
     # X: transforms on copies: all positions of 0..2 switch ports among up to 4 objects, NULLed objects, bad arguments
     c = base_consts(sw)
     xseq = set()
@@ -190,10 +199,13 @@ def configs(fams, thorough, seed):
     c = base_consts(gr)
     c.update(Kinds={6, 33, 9}, CommitFlags={0, 1, 2, 3}, ValPats={1, 2, 5},
              ObjSeqs={(1, 2, 3, 4), (1, 3, 2, 4), (1, 2, 3), (5, 6, 7, 8), (6, 5, 8), (9, 10, 11, 12), (9, 11, 10, 12), (1, 2, 5, 6), (9, 10)},
-             MaxDists=2 if thorough else 1, MaxPhase=1, Ops={"restrict", "dup", "xml", "remove", "rr"} if thorough else {"xml", "remove"})
-    out.append(("group", gr, c, "bfs", 100 if thorough else 2, 0, 0))
+             MaxDists=1, MaxPhase=1, Ops={"xml", "remove", "dup", "restrict"})
+    if thorough:        # a second commit, after the topology went through restrict / dup / XML
+        c.update(Kinds={6, 33}, CommitFlags={0, 1, 3}, ObjSeqs={(1, 2, 3, 4), (1, 3, 2, 4), (5, 6, 7, 8), (9, 10, 11, 12), (9, 11, 10, 12), (1, 2, 5, 6)},
+                 MaxDists=2, Ops={"restrict", "dup", "xml", "remove"})
+    out.append(("group", gr, c, "bfs", 20 if thorough else 6, 0, 0))
     # simulation: seven candidates of four types, random values, every family of actions interleaved
-    for i in range(4 if thorough else 1):
+    for i in range(6 if thorough else 1):
         c = base_consts(six)
         c.update(Names={"-", "a", "b"}, Kinds={6, 9, 33, 5, 10, 34, 4, 2, 0, 22, 70, 3}, CreateFlags={0, 0, 1}, ValuesFlags={0}, CommitFlags={0, 0, 2, 4},
                  ObjSeqs=set(random.Random(seed * 77 + i).sample(sorted(perms_upto([1, 2, 3, 4, 5, 6, 7], 4)), 60)) | {(0, 1, 2), (1, 0), (0, 3), (7, 7, 1), (2,)},
@@ -202,7 +214,7 @@ def configs(fams, thorough, seed):
                  Queries=kind_queries([0, 1, 2, 4, 8, 32, 6, 9, 45, 3], [-1, 1]) | {("name", "a", 0, 0, -1), ("name", "b", 0, 0, 1)}
                  | {("type", t, 0, 0, -1) for t in ("PU", "NUMANode", "Core", "Package")} | {("depth", "t:Core", 0, 0, 2)},
                  Xfs={(0, 1, 0, 0), (0, 6, 0, 0), (1, 0, 0, 0), (3, 0, 0, 0), (2, 0, 0, 0)}, SimLen=14)
-        out.append(("sim%d" % i, six, c, "sim", 1, 150 if thorough else 40, 15))
+        out.append(("sim%d" % i, six, c, "sim", 1, 200 if thorough else 40, 15))
     return out
 
 
@@ -340,7 +352,6 @@ def bundled_behaviours(ctx, exe, rng, thorough):
 def record_parallel(ctx, exe, behs, tracefile, nproc=8):
     """record chunks of the behaviour list in parallel; the chunk traces are concatenated with the behaviour
     numbers shifted to global ones (the recorder numbers behaviours from 0 within its file)"""
-    import concurrent.futures as cf
     n = len(behs)
     size = max(1, (n + nproc - 1) // nproc)
     chunks = [(i, behs[i:i + size]) for i in range(0, n, size)]
@@ -409,12 +420,11 @@ def run(ctx, replay=None):
             raise vlib.Infra("model check of MC_Distances (%s) failed (model-level, not a violation): %s\n%s" % (tag, st["error"], out[-2500:]))
         return [beh_text(h, fam) for h in vlib.tlc_printed(out, "EDGE" if mode == "bfs" else "SIM")]
 
-    import concurrent.futures as cf
     with cf.ThreadPoolExecutor(max_workers=4) as ex:
         results = list(ex.map(run_job, jobs))
     for job, res in zip(jobs, results):
         tag = job[0]
-        cap = 12000 if thorough else 1200          # guard against a stripe that came out too fat
+        cap = 20000 if thorough else 1200          # guard against a stripe that came out too fat
         if len(res) > cap:
             res = random.Random(ctx.seed + len(behs)).sample(res, cap)
             ctx.notes.append("configuration %s: sampled %d of the emitted behaviours" % (tag, cap))
@@ -429,7 +439,6 @@ def run(ctx, replay=None):
     bf = ctx.path("behaviours.txt")
     open(bf, "w").write("".join(behs))
     tf = ctx.path("trace.ndjson")
-    import time
     t0 = time.time()
     record_parallel(ctx, exe, behs, tf)
     t1 = time.time()
@@ -447,14 +456,17 @@ def run(ctx, replay=None):
         ctx.notes.append("%d rejected behaviours, %d confirmed and reported" % (len(rejs), len(todo[:12])))
     ctx.handle_rejections(todo[:12], behs, replay_fn)
     return ctx.finish(
-        rule="behaviours = one per (striped) edge of the state graph of the bounded distances store in five configurations "
-             "(all kind words; all object arrays of 0..4 of 4 candidates incl. NULL/duplicates followed by restrict/dup/XML; "
-             "multi-structure store with every filter/array size/removal; transforms over all positions of 0..2 switch ports; "
-             "grouping at commit), TLC-simulated interleavings over 7 candidates with random values, and scripted sequences "
-             "around the bundled XML inputs with distances; each behaviour was replayed on the rebuilt library and every "
-             "recorded event validated by TLC against the relations of Distances.tla",
+        rule="behaviours = one per (striped) edge of the state graph of the bounded distances store (MC_Distances.tla) in the "
+             "configurations kinds (all kind words x names x create flags), args (every array of 0..3 pointers over NULL and 3 "
+             "candidates x values/commit flags, all edges), objs (all ordered arrays of 0..4 of 4 mixed-type candidates, then "
+             "restrict/dup/XML/shmem), store (2-3 structures: every kind filter x array size, by name/type/depth, every removal), "
+             "xf (transforms over all positions of 0..2 switch ports among 4, NULLed objects, bad arguments) and group (commit with "
+             "GROUP flags on fresh / restricted / duplicated / re-imported topologies); plus TLC-simulated interleavings over 7 "
+             "candidates with random values and scripted sequences around the bundled XML inputs with distances; a behaviour is "
+             "non-trivial when it reaches at least one committed structure or a rejected argument; each behaviour was replayed on "
+             "the rebuilt (ASan+UBSan) library and every recorded event validated by TLC against the relations of Distances.tla",
         assumptions=["values stay below 2^24 (TLC integers); 64-bit overflow in transforms is not explored",
-                     "shared-memory adoption (part of the statement) is covered by C19's machinery, not here",
+                     "shared-memory adoption is exercised within one process only (write, adopt, observe, destroy)",
                      "the order in which get* returns structures is not specified and not checked (bag comparison)",
                      "which Groups a GROUP commit creates is not specified; only hwloc_topology_check() afterwards",
                      "objects are identified by gp_index, assumed stable across dup and v3 XML round trip (C05/C12)"],
